@@ -171,6 +171,12 @@ def run(rep, tier):
                 # position scheme (index / values[result]): sound only for 0..n-1 in order
                 if "(index)" not in t or not c["contiguous"]:
                     bad("dart", "position scheme used for a non-contiguous enum", {"text": t[:600]})
+            # use site: what the `self` of a method is sent to Rust as (the declaration position is only right for 0..n-1)
+            for arg in re.findall(r'_%s_rt\(([^)]*)\)' % f, t):
+                if "external" in arg or ":" in arg or " " in arg.strip():
+                    continue         # the declaration, not a call
+                if not (arg.strip() == "_ffi" or (arg.strip() == "index" and c["contiguous"])):
+                    bad("dart", "enum receiver sent to Rust as its position although the enum is not 0..n-1", {"argument": arg, "discs": discs})
         if "kotlin" in outs:
             kt = [os.path.join(rr, x) for rr, _, fs in os.walk(outs["kotlin"]) for x in fs if x == f + ".kt"][0]
             t = open(kt).read()
